@@ -319,8 +319,23 @@ class PipeReader:
                 del loc[:]
                 return data
 
+    read_fault = None
+
     def read(self, n=-1):
         p = self.pipe
+        if self.read_fault is not None:
+            # reading the child's stderr fails: the descriptor was closed under the reader's
+            # hands (EBADF/EIO).  The pipe has no reader any more: what the child still writes
+            # there is lost (EPIPE), it does not block
+            info, env = self.read_fault
+            self.read_fault = None
+            p.closed_w = True
+            info['reader_failed'] = True         # its report cannot be read by the parent
+            self.s.probe('stderr_read_error_injected')
+            env.fired.append('stderr_read_error')
+            self.s.log.append(('stderr-read-error', self.name))
+            self.s.switch()
+            raise OSError(errno.EIO, 'Input/output error (injected stderr read error)')
         if n is not None and n >= 0:
             # BufferedReader.read(n): up to n bytes, blocking until n bytes or EOF
             loc = self.local
@@ -840,6 +855,8 @@ class SimPopen:
         eintr = [(e['nth'], e.get('errno', 'EINTR')) for e in env.channel_faults(layer, 'eintr')]
         self.stdout = PipeReader(s, self.actor.out, layer + ':out', sorted(eintr))
         self.stderr = PipeReader(s, self.actor.err, layer + ':err', [])
+        if env.knobs.get('stderr_read_error') == simpid:
+            self.stderr.read_fault = (info, env)
         self.stdin = _SimStdin() if stdin == -1 else None
         self.pid = 100000 + simpid
         self.returncode = None
@@ -1005,8 +1022,13 @@ class SimThread:
         except BaseException as e:  # noqa
             if isinstance(e, HarnessError):
                 HARNESS_ERRORS.append(str(e))
-            s.thread_excs.append((self.name, type(e).__name__, str(e)[:200]))
-            s.log.append(('thread-exc', self.name, type(e).__name__))
+            if isinstance(e, OSError) and 'injected stderr read error' in str(e):
+                # the helper thread that reads a child's stderr dies of the injected read
+                # error: that is the fault itself, not a reaction of the runner to judge
+                s.log.append(('thread-exc-injected', self.name))
+            else:
+                s.thread_excs.append((self.name, type(e).__name__, str(e)[:200]))
+                s.log.append(('thread-exc', self.name, type(e).__name__))
         finally:
             _SYS_SETTRACE(None)
             self.task.state = 'done'
